@@ -158,19 +158,6 @@ struct Variant<std::tuple<Ts...>> {
   using Type = std::variant<Ts...>;
 };
 
-template <typename Tuple>
-struct MaybeVariant;
-
-template <typename T>
-struct MaybeVariant<std::tuple<T>> {
-  using Type = T;
-};
-
-template <typename... Ts>
-struct MaybeVariant<std::tuple<Ts...>> {
-  using Type = std::variant<Ts...>;
-};
-
 template <typename T>
 struct WrapVoid {
   using Type = T;
@@ -183,6 +170,19 @@ struct WrapVoid<void> {
 
 template <typename T>
 using wrap_void_t = typename WrapVoid<T>::Type;
+
+template <typename Tuple>
+struct MaybeVariant;
+
+template <typename T>
+struct MaybeVariant<std::tuple<T>> {
+  using Type = T;
+};
+
+template <typename... Ts>
+struct MaybeVariant<std::tuple<Ts...>> {
+  using Type = std::variant<wrap_void_t<Ts>...>;
+};
 
 template <std::size_t FromIndex, std::size_t ToIndex, typename FromTuple, typename ToTuple>
 struct TranslateIndexImpl;
